@@ -7,7 +7,7 @@
    regression cases in corpus/C11.sx. *)
 From Coq Require Import List ZArith QArith Qabs Bool Arith Sorted Permutation.
 From Gst Require Import lib.QAux C11.Sums C11.Spec C11.Model C11.Model_sparse C11.Model_vec
-  C11.Proofs C11.Proofs_ops C11.Proofs_sparse C11.Proofs_vec C11.Proofs_more C11.Proofs_dupl.
+  C11.Proofs C11.Proofs_ops C11.Proofs_sparse C11.Proofs_vec C11.Proofs_more C11.Proofs_dupl C11.Proofs_scatter C11.Proofs_wrap C11.Proofs_sq.
 Import ListNotations.
 Local Open Scope Q_scope.
 
@@ -302,6 +302,127 @@ Theorem C11_transpose_eigen : forall s,
 Proof. exact transpose_eigen. Qed.
 Print Assumptions C11_transpose_eigen.
 
+(* cs_add: C = alpha.A + beta.B entry by entry (duplicates summed, explicit zeros kept), column pointers well formed *)
+Theorem C11_cs_add : forall a b alpha beta, rows_in a -> rows_in b -> cm b = cm a -> cn a = cn b ->
+  cm (cs_add a b alpha beta) = cm a /\ cn (cs_add a b alpha beta) = cn b /\
+  length (cp (cs_add a b alpha beta)) = S (cn b) /\ rows_in (cs_add a b alpha beta) /\
+  forall i j, (i < cm a)%nat -> (j < cn b)%nat ->
+    abs_csc (cs_add a b alpha beta) i j == alpha * abs_csc a i j + beta * abs_csc b i j.
+Proof. exact cs_add_spec. Qed.
+Print Assumptions C11_cs_add.
+(* cs_multiply (scatter workspace of cs_scatter): C = A.B *)
+Theorem C11_cs_multiply : forall a b, rows_in a -> rows_in b -> cn a = cm b ->
+  cm (cs_multiply a b) = cm a /\ cn (cs_multiply a b) = cn b /\
+  length (cp (cs_multiply a b)) = S (cn b) /\ rows_in (cs_multiply a b) /\
+  forall i j, (i < cm a)%nat -> (j < cn b)%nat ->
+    abs_csc (cs_multiply a b) i j == sumn (cn a) (fun k => abs_csc a i k * abs_csc b k j).
+Proof. exact cs_multiply_spec. Qed.
+Print Assumptions C11_cs_multiply.
+(* well-formedness (rows inside, cn+1 column pointers) is preserved by transposition and holds for every storage built from triplets *)
+Theorem C11_cs_transpose_wf : forall a c, rows_in a -> (0 < cm a)%nat -> (0 < cn a)%nat -> cs_transpose a true = Some c -> wf_csc c.
+Proof. exact wf_transpose. Qed.
+Print Assumptions C11_cs_transpose_wf.
+Theorem C11_buildCs_wf : forall T, T <> [] -> wf_csc (buildCs T) /\ cm (buildCs T) = trip_m T /\ cn (buildCs T) = trip_n T.
+Proof. exact wf_buildCs. Qed.
+Print Assumptions C11_buildCs_wf.
+
+(* ================================================================== MatrixSparse wrappers refine the same abstract matrix *)
+Theorem C11_prodMatMat_sparse_cs : forall (s x y : spc) (tx ty : bool),
+  wf_csc (scs x) -> wf_csc (scs y) -> (0 < cm (scs x))%nat -> (0 < cn (scs x))%nat -> (0 < cm (scs y))%nat -> (0 < cn (scs y))%nat ->
+  (if tx then cm (scs x) else cn (scs x)) = (if ty then cn (scs y) else cm (scs y)) ->
+  exists s', SC_prodMatMat s x y tx ty = Ok s' /\ wf_csc (scs s') /\
+    cm (scs s') = (if tx then cn (scs x) else cm (scs x)) /\ cn (scs s') = (if ty then cm (scs y) else cn (scs y)) /\
+    forall i j, (i < cm (scs s'))%nat -> (j < cn (scs s'))%nat ->
+      abs_csc (scs s') i j == mmul (if tx then cm (scs x) else cn (scs x)) (opT tx (abs_csc (scs x))) (opT ty (abs_csc (scs y))) i j.
+Proof. exact SC_prodMatMat_spec. Qed.
+Print Assumptions C11_prodMatMat_sparse_cs.
+Theorem C11_addMat_sparse_cs : forall s y cx0 cy0, rows_in (scs s) -> rows_in (scs y) -> cm (scs y) = cm (scs s) -> cn (scs s) = cn (scs y) ->
+  exists s', SC_addMat s y cx0 cy0 = Ok s' /\ wf_csc (scs s') /\ cm (scs s') = cm (scs s) /\ cn (scs s') = cn (scs s) /\
+    forall i j, (i < cm (scs s))%nat -> (j < cn (scs s))%nat ->
+      abs_csc (scs s') i j == mlin2 cx0 (abs_csc (scs s)) cy0 (abs_csc (scs y)) i j.
+Proof. exact SC_addMat_spec. Qed.
+Print Assumptions C11_addMat_sparse_cs.
+Theorem C11_prodScalar_sparse_cs : forall s v, rows_in (scs s) -> isOne v = false ->
+  exists s', SC_prodScalar s v = Ok s' /\ wf_csc (scs s') /\
+    forall i j, (i < cm (scs s))%nat -> (j < cn (scs s))%nat -> abs_csc (scs s') i j == mscal v (abs_csc (scs s)) i j.
+Proof. exact SC_prodScalar_spec. Qed.
+Print Assumptions C11_prodScalar_sparse_cs.
+Theorem C11_prodNormMatMat_sparse_cs : forall (s a m : spc) (t : bool),
+  wf_csc (scs a) -> wf_csc (scs m) -> (0 < cm (scs a))%nat -> (0 < cn (scs a))%nat ->
+  cm (scs m) = (if t then cm (scs a) else cn (scs a)) -> cn (scs m) = (if t then cm (scs a) else cn (scs a)) ->
+  exists s', SC_prodNormMatMat s a m t = Ok s' /\ wf_csc (scs s') /\
+    forall i j, (i < (if t then cn (scs a) else cm (scs a)))%nat -> (j < (if t then cn (scs a) else cm (scs a)))%nat ->
+      abs_csc (scs s') i j == mcongr t (if t then cm (scs a) else cn (scs a)) (abs_csc (scs a)) (abs_csc (scs m)) i j.
+Proof. exact SC_prodNormMatMat_spec. Qed.
+Print Assumptions C11_prodNormMatMat_sparse_cs.
+Theorem C11_prodMatMat_sparse_eigen : forall s x y tx ty, dimc tx (sem x) = dimr ty (sem y) ->
+  exists s', SE_prodMatMat s x y tx ty = Ok s' /\ nr (sem s') = dimr tx (sem x) /\ nc (sem s') = dimc ty (sem y) /\
+    forall i j, (i < dimr tx (sem x))%nat -> (j < dimc ty (sem y))%nat ->
+      getv (sem s') i j = mmul (dimc tx (sem x)) (opT tx (absd (sem x))) (opT ty (absd (sem y))) i j.
+Proof. exact SE_prodMatMat_spec. Qed.
+Print Assumptions C11_prodMatMat_sparse_eigen.
+Theorem C11_addMat_sparse_eigen : forall s y cx0 cy0, nr (sem s) = nr (sem y) -> nc (sem s) = nc (sem y) ->
+  exists s', SE_addMat s y cx0 cy0 = Ok s' /\ nr (sem s') = nr (sem s) /\ nc (sem s') = nc (sem s) /\
+    forall i j, (i < nr (sem s))%nat -> (j < nc (sem s))%nat ->
+      getv (sem s') i j = mlin2 cx0 (absd (sem s)) cy0 (absd (sem y)) i j.
+Proof. exact SE_addMat_spec. Qed.
+Print Assumptions C11_addMat_sparse_eigen.
+(* corollary: dense, csparse and Eigen-sparse storages of the same abstract operands give the same abstract product *)
+Theorem C11_storages_agree_prodMatMat : forall d dx dy sx sy ex ey tx ty s0 e0,
+  wf_csc (scs sx) -> wf_csc (scs sy) -> (0 < nr dx)%nat -> (0 < nc dx)%nat -> (0 < nr dy)%nat -> (0 < nc dy)%nat ->
+  cm (scs sx) = nr dx -> cn (scs sx) = nc dx -> cm (scs sy) = nr dy -> cn (scs sy) = nc dy ->
+  nr (sem ex) = nr dx -> nc (sem ex) = nc dx -> nr (sem ey) = nr dy -> nc (sem ey) = nc dy ->
+  meq (nr dx) (nc dx) (abs_csc (scs sx)) (absd dx) -> meq (nr dy) (nc dy) (abs_csc (scs sy)) (absd dy) ->
+  meq (nr dx) (nc dx) (absd (sem ex)) (absd dx) -> meq (nr dy) (nc dy) (absd (sem ey)) (absd dy) ->
+  dimc tx dx = dimr ty dy -> nr d = dimr tx dx -> nc d = dimc ty dy ->
+  exists rd rs re, D_prodMatMat d dx dy tx ty = Ok rd /\ SC_prodMatMat s0 sx sy tx ty = Ok rs /\ SE_prodMatMat e0 ex ey tx ty = Ok re /\
+    forall i j, (i < nr d)%nat -> (j < nc d)%nat ->
+      abs_csc (scs rs) i j == getv rd i j /\ getv (sem re) i j == getv rd i j.
+Proof. exact storages_agree_prodMatMat. Qed.
+Print Assumptions C11_storages_agree_prodMatMat.
+
+(* ================================================================== VectorHelper kernels and square-matrix helpers *)
+Theorem C11_VH_add : forall a b,
+  (length a = length b -> length (VH_add a b) = length a /\ forall i, (i < length a)%nat -> nth i (VH_add a b) 0 = nth i a 0 + nth i b 0) /\
+  (length a <> length b -> VH_add a b = a).
+Proof. exact VH_add_spec. Qed.
+Print Assumptions C11_VH_add.
+Theorem C11_VH_subtract : forall a b,
+  (length a = length b -> exists r, VH_subtract a b = Ok r /\ length r = length a /\ forall i, (i < length a)%nat -> nth i r 0 = nth i b 0 - nth i a 0) /\
+  (length a <> length b -> VH_subtract a b = Exn).
+Proof. exact VH_subtract_spec. Qed.
+Print Assumptions C11_VH_subtract.
+Theorem C11_VH_multiply : forall a b,
+  (length a = length b -> exists r, VH_multiplyInPlace a b = Ok r /\ length r = length a /\ forall i, (i < length a)%nat -> nth i r 0 = nth i a 0 * nth i b 0) /\
+  (length a <> length b -> VH_multiplyInPlace a b = Exn).
+Proof. exact VH_multiply_spec. Qed.
+Print Assumptions C11_VH_multiply.
+Theorem C11_VH_innerProduct : forall a b,
+  (length a = length b -> exists r, VH_innerProduct a b = Ok r /\ r == dot (length a) (vl a) (vl b)) /\
+  ((length b < length a)%nat -> VH_innerProduct a b = Exn).
+Proof. exact VH_innerProduct_spec. Qed.
+Print Assumptions C11_VH_innerProduct.
+(* the span kernel has no size check: defined exactly when dest is at least as long as src, a heap overrun otherwise *)
+Theorem C11_VH_addInPlace_span : forall src dest,
+  ((length src <= length dest)%nat -> exists r, VH_addInPlace_span src dest = Ok r /\ length r = length dest /\
+      forall i, (i < length dest)%nat -> nth i r 0 = if (i <? length src)%nat then nth i dest 0 + nth i src 0 else nth i dest 0) /\
+  ((length dest < length src)%nat -> exists c, VH_addInPlace_span src dest = UB c).
+Proof. exact VH_addInPlace_span_spec. Qed.
+Print Assumptions C11_VH_addInPlace_span.
+Theorem C11_trace : forall d, SQ_trace d == sumn (nr d) (fun i => getv d i i).
+Proof. exact SQ_trace_spec. Qed.
+Print Assumptions C11_trace.
+Theorem C11_normVec : forall d v,
+  (nr d = nc d -> length v = nr d -> exists r, SQ_normVec d v = Some r /\ r == dot (nr d) (vl v) (mvec (nr d) (absd d) (vl v))) /\
+  (length v <> nr d -> SQ_normVec d v = None).
+Proof. exact SQ_normVec_spec. Qed.
+Print Assumptions C11_normVec.
+Theorem C11_prodByDiag : forall d mode c, wfd d -> nr d = nc d -> length c = nr d ->
+  exists r, SQ_prodByDiag false d mode c = Ok r /\ nr r = nr d /\ nc r = nc d /\
+    meq (nr d) (nc d) (absd r) (match mode with O => mcolscale (vl c) (absd d) | _ => mcoldiv (vl c) (absd d) end).
+Proof. exact SQ_prodByDiag_spec. Qed.
+Print Assumptions C11_prodByDiag.
+
 (* ================================================================== triangular solves and Cholesky wrappers *)
 Theorem C11_solve_forward : forall n L b eps, pivots_ok n L eps -> mlower n L ->
   exists y, forward_subst n L b eps = Some y /\ length y = n /\ veq n (mvec n L (vl y)) b.
@@ -417,6 +538,32 @@ Example C11_nonvacuous_sparse_wrappers :
   nrmSC (Ok (SC_create Tdup 2 2)) = nrmSE (Ok (SE_create Tdup 2 2)) /\
   nrmSC (Ok (SC_create (dense_to_triplet (mkD 2 1 [1; 0])) 2 1)) = Some (2%nat, 1%nat, [1; 0]) /\
   nrmSE (Ok (SE_create (dense_to_triplet (mkD 2 1 [1; 0])) 2 1)) = Some (2%nat, 1%nat, [1; 0]).
+Proof. vm_compute. repeat split; reflexivity. Qed.
+(* cs_add / cs_multiply on matrices with duplicates, an explicit zero and an empty column; wrappers of both back-ends *)
+Definition ex_U : list trip := [tr 0 0 1; tr 1 2 (-(6)); tr 0 2 1].
+Definition ex_B : list trip := [tr 0 0 1; tr 2 0 1; tr 1 1 7; tr 2 3 2; tr 2 3 (-(1))].
+Definition absl (a : csc) (m n : nat) : list Q := map (fun p => Qred (abs_csc a (fst p) (snd p))) (rowmajor m n).
+Example C11_nonvacuous_cs_kernels :
+  absl (cs_add (cs_triplet ex_T) (cs_triplet_dims 2 3 ex_U) 2 (-(1))) 2 3 = [1; 0; 9; 2; 0; 18] /\
+  cp (cs_add (cs_triplet ex_T) (cs_triplet_dims 2 3 ex_U) 2 (-(1))) = [0; 2; 3; 5]%nat /\
+  absl (cs_multiply (cs_triplet ex_T) (cs_triplet_dims 3 4 ex_B)) 2 4 = [6; 0; 0; 5; 7; 0; 0; 6] /\
+  cp (cs_multiply (cs_triplet ex_T) (cs_triplet_dims 3 4 ex_B)) = [0; 2; 3; 3; 5]%nat /\
+  nrmSC (SC_prodMatMat (SC_create [] 3 3) (SC_create ex_T 2 3) (SC_create ex_T 2 3) true false) = Some (3%nat, 3%nat, [2; 0; 11; 0; 0; 0; 11; 0; 61]) /\
+  nrmSE (SE_prodMatMat (SE_create [] 3 3) (SE_create ex_T 2 3) (SE_create ex_T 2 3) true false) = Some (3%nat, 3%nat, [2; 0; 11; 0; 0; 0; 11; 0; 61]) /\
+  nrmSC (SC_prodNormMatMat (SC_create [] 3 3) (SC_create ex_T 2 3) (SC_create [tr 0 0 2; tr 1 0 1; tr 0 1 1; tr 1 1 3] 2 2) true)
+    = Some (3%nat, 3%nat, [7; 0; 39; 0; 0; 0; 39; 0; 218]) /\
+  nrmSC (SC_addMat (SC_create ex_T 2 3) (SC_create ex_U 2 3) 2 (-(1))) = Some (2%nat, 3%nat, [1; 2; 0; 0; 9; 18]).
+Proof. vm_compute. repeat split; reflexivity. Qed.
+(* VectorHelper kernels with and without size mismatch; square helpers; packed symmetric constructors *)
+Example C11_nonvacuous_helpers :
+  nrmV (Ok (VH_add [1; 2] [3; 4])) = Some [4; 6] /\ nrmV (VH_subtract [1; 2] [3; 5]) = Some [2; 3] /\ VH_subtract [1] [3; 5] = Exn /\
+  nrmV (VH_addInPlace_span [1; 2] [10; 20; 30]) = Some [11; 22; 30] /\ VH_addInPlace_span [1; 2; 3] [10] = UB 4%Z /\
+  Qred (SQ_trace ex_s) = 5 /\ (match SQ_normVec ex_s [1; 2] with Some q => Some (Qred q) | None => None end) = Some 18 /\ SQ_normVec ex_s [1] = None /\
+  nrmD (SQ_prodByDiag false ex_s 0 [2; 3]) = Some (2%nat, 2%nat, [4; 2; 3; 9]) /\
+  nrmD (SQ_prodByDiag false ex_s 2 [2; 4]) = Some (2%nat, 2%nat, [1; 1 # 2; 1 # 4; 3 # 4]) /\
+  nrmD (Ok (SS_createFromTLTU 2 [2; 1; 3])) = Some (2%nat, 2%nat, [4; 2; 2; 10]) /\
+  nrmD (Ok (SS_createFromTriangle 0 3 [1; 2; 3; 4; 5; 6])) = Some (3%nat, 3%nat, [1; 2; 3; 2; 4; 5; 3; 5; 6]) /\
+  nrmD (Ok (SS_createFromTriangle 1 3 [1; 2; 3; 4; 5; 6])) = Some (3%nat, 3%nat, [1; 2; 3; 2; 4; 5; 3; 5; 6]).
 Proof. vm_compute. repeat split; reflexivity. Qed.
 (* solves: a lower factor with non-trivial off-diagonal terms; its certificate holds *)
 Definition ex_L : mat := fun i j => nth j (nth i [[2; 0; 0]; [1; 1; 0]; [-(3); 2; 4]] []) 0.
